@@ -21,6 +21,7 @@ From PV Require Import EndToEnd.Model EndToEnd.Spec EndToEnd.ProofsStream EndToE
 From PV Require Import FloatGrid.Grid.
 From Coq Require Import Reals.
 From Flocq Require Import Core.
+Open Scope Z_scope.
 
 (* After every well-formed timed history, for every queue class: each kept (logged, non-cancelled) trial has its
    waveform in the played stream at its notified start, sample for sample, as far as it has been generated;
